@@ -70,7 +70,9 @@ func genMessage(t *Tape, conn, idx int) []byte {
 	for i := 0; i < nf; i++ {
 		tag := []int{11, 55, 110, 210, 1, 100, 1010, 9999, 96, 354}[t.Draw(10)]
 		var val string
-		switch t.Pick(4, 3, 2, 1, 1) {
+		switch t.Pick(4, 3, 2, 1, 1, 1) {
+		case 5:
+			val = strings.Repeat("x", t.Draw(3)) + strings.Repeat("10=", 1000+t.Draw(2000)) // longer than a read buffer, "10=" everywhere
 		case 0:
 			val = "v" + itoa(t.Draw(100000))
 		case 1:
